@@ -248,15 +248,21 @@ func (vc *FuncVC) Query(ob *Obligation) string {
 	axText := ax.String()
 	used := usedSymbols(text + axText)
 	var out strings.Builder
-	out.WriteString(vc.w.S.Preamble())
+	var fd strings.Builder
 	for _, n := range vc.funOrder {
-		out.WriteString(vc.funDecls[n] + "\n")
-	}
-	for _, n := range vc.declOrder {
 		if used[n] {
-			fmt.Fprintf(&out, "(declare-const %s %s)\n", n, vc.decls[n])
+			fd.WriteString(vc.funDecls[n] + "\n")
 		}
 	}
+	var cd strings.Builder
+	for _, n := range vc.declOrder {
+		if used[n] {
+			fmt.Fprintf(&cd, "(declare-const %s %s)\n", n, vc.decls[n])
+		}
+	}
+	out.WriteString(vc.w.S.Preamble(text + axText + fd.String() + cd.String()))
+	out.WriteString(fd.String())
+	out.WriteString(cd.String())
 	out.WriteString(axText)
 	out.WriteString(text)
 	out.WriteString("(check-sat)\n")
